@@ -9,7 +9,7 @@ usage: sweep.py [name-substring ...]
 import glob, json, os, re, shutil, subprocess, sys, tempfile
 
 ROOT = os.path.dirname(os.path.dirname(os.path.abspath(__file__)))
-REVERTS = {"revert_fix_from_thread_run_cancelled_scope": ["C03"], "revert_fix_native_cancel_empty_group": ["C01"], "revert_fix_cond_owner": ["C11"], "revert_fix_lru_cache": ["C20"],
+REVERTS = {"revert_fix_receive_until_offset": ["C16"], "revert_fix_from_thread_run_cancelled_scope": ["C03"], "revert_fix_native_cancel_empty_group": ["C01"], "revert_fix_cond_owner": ["C11"], "revert_fix_lru_cache": ["C20"],
            "revert_fix_start_exception": ["C02", "C07"],
            "revert_fix_spawn_into_cancelled": ["C03", "C02"],
            "revert_fix_empty_group_checkpoint": ["C01"], "revert_fix_text_bom": ["C16"]}
